@@ -143,8 +143,8 @@ def St.onWaitEvent (s : St) (w e : Nat) : Outcome × St :=
 def St.onWaitDone (s : St) (w e : Nat) : Outcome × St :=
   let ws := s.wait w
   let ev := s.ev e
-  -- `if state.timed_out: return` : a stale invocation after the time-out does nothing
-  if !ws.timedOut && (ws.event.isSome && ws.event == ev.parentEv) then
+  -- `if state.flag or state.timed_out: return` : a repeated or stale invocation does nothing
+  if !ws.flag && !ws.timedOut && (ws.event.isSome && ws.event == ev.parentEv) then
     let s1 := (s.modWait w fun x => { x with flag := true }).registerTask ws.owner
                 ⟨ws.taskEvent, ws.task, some ws.parentGen⟩
     if ws.timeout ≥ 0 then
